@@ -27,7 +27,7 @@ ASSUMPTIONS = ["virtual_sitesn is generated with function 1 (centre of geometry)
                "that COM/COW are approximated by COG",
                "Weisfeiler-Lehman hash collisions between non-isomorphic residues with equal atom-name multisets "
                "are not generated on purpose and would be reported as 'shared_template' (none seen)"]
-BUDGET = {"quick": (16, 25), "thorough": (16, 800)}
+BUDGET = {"quick": (16, 50), "thorough": (16, 800)}
 
 TYPES = ["TA", "TB", "TC"]
 
@@ -144,9 +144,18 @@ def _strategy(draw):
         moltypes.append({"name": "MB", "residues": [variant]})
     molecules = [[mt["name"], draw(st.integers(1, 2))] for mt in moltypes]
     build = {"templates": {}, "volumes": {}}
+    if variant is not None and variant["vs"] is None and resdefs[0]["vs"] is None and draw(st.booleans()):
+        # the two residues that share a name each get their own [ template ] section (same resname line, other
+        # atoms): templates are told apart by their content, so both are used. The keys carry "/x" for the variant.
+        for key, rd in ((resdefs[0]["resname"], resdefs[0]), (variant["resname"] + "/x", variant)):
+            pts = []
+            for k in range(len(rd["atoms"])):
+                pts.append([round(0.2 * k + draw(st.integers(-5, 5)) / 100.0, 3), round(draw(st.integers(-20, 20)) / 100.0, 3),
+                            round(draw(st.integers(-20, 20)) / 100.0, 3)])
+            build["templates"][key] = pts
     for rd in resdefs:
         if variant is not None and rd["resname"] == variant["resname"]:
-            continue      # a resname-keyed build entry is ambiguous when two different residues share the name
+            continue      # a resname-keyed [ volumes ] entry is ambiguous when two different residues share the name
         natoms = len(rd["atoms"]) + (1 if rd["vs"] else 0)
         if natoms >= 1 and rd["vs"] is None and draw(st.integers(0, 3)) == 0:
             pts = []
@@ -234,7 +243,10 @@ def render_build(spec):
         for rd in mt["residues"]:
             first_defs.setdefault(rd["resname"], rd)
     for rn, pts in spec["build"]["templates"].items():
-        rd = [r for mt in spec["moltypes"] for r in mt["residues"] if r["resname"] == rn and not r["atoms"][0]["name"].startswith("x")]
+        is_variant = rn.endswith("/x")
+        rn = rn.split("/")[0]
+        rd = [r for mt in spec["moltypes"] for r in mt["residues"]
+              if r["resname"] == rn and r["atoms"][0]["name"].startswith("x") == is_variant]
         if not rd:
             continue
         rd = rd[0]
@@ -494,8 +506,8 @@ def check(spec, ctx):
                 raise Violation("grouping:shared_template", f"template {key} is shared by residues with atom names {key_names[key]} and {multiset}")
             key_names[key] = multiset
             # user template
-            user = spec["build"]["templates"].get(rd["resname"])
-            if user is not None and not rd["atoms"][0]["name"].startswith("x"):
+            user = spec["build"]["templates"].get(rd["resname"] + ("/x" if rd["atoms"][0]["name"].startswith("x") else ""))
+            if user is not None:
                 pts = np.array(user, dtype=float)
                 pts = pts - pts.mean(axis=0)
                 for at, p in zip(res_atoms(rd), pts):
